@@ -51,7 +51,7 @@ def build(table="module"):
     S.consts["T"] = T
     S.consts["PERM_INVARIANT"] = bs.PERM_INVARIANT
     st = store.Store()
-    for m in ("brine", "compat", "externals", "stream", "channel", "protocol_attr", "colls", "protocol_box", "protocol_core", "async_", "protocol_close", "lib", "netref", "protocol_handlers", "scenarios", "vinegar", "classic", "registry", "server", "protocol_init", "helpers"):
+    for m in ("brine", "compat", "externals", "stream", "channel", "protocol_attr", "colls", "protocol_box", "protocol_core", "async_", "protocol_close", "lib", "netref", "protocol_handlers", "scenarios", "vinegar", "classic", "registry", "server", "protocol_init", "helpers", "service"):
         importlib.import_module("contracts." + m).register(st)
     lib = libmodels.Lib(S)
     ex = engine.Executor(st, REPO, S, lib)
